@@ -176,6 +176,10 @@ def eval_term(t, env):
     raise Unsupported("eval_term %s" % (k,))
 
 
+_CUR_INTERP = [None]               # the interpretation in progress (one at a time per process)
+_VALUE_EQ_PREFIX = "pysmt.typing."   # classes whose instances are compared / hashed through their own __eq__ / __hash__
+
+
 class AObj(Abs):
     """Instance of a repository class (or of a modelled class)."""
 
@@ -189,14 +193,46 @@ class AObj(Abs):
 
     def __hash__(self):
         # formula nodes hash like FNode does (their id), so that the analyser's own sets and dictionaries of
-        # nodes iterate in the order CPython would give; everything else hashes by identity
+        # nodes iterate in the order CPython would give; sort objects hash and compare through the __hash__ / __eq__
+        # their classes define (interpreted), so that dictionaries keyed by them behave as in Python; everything
+        # else hashes by identity
         if self.cls == "pysmt.fnode.FNode":
             nid = self.attrs.get("_node_id")
             if isinstance(nid, int) and not isinstance(nid, bool):
                 return nid
+        elif self.cls.startswith(_VALUE_EQ_PREFIX):
+            it = _CUR_INTERP[0]
+            if it is not None and not it._in_value_eq and "_sa_hash" not in self.attrs:
+                it._in_value_eq += 1
+                try:
+                    h = it.call(it.getattr(self, "__hash__"), [])
+                    if isinstance(h, int) and not isinstance(h, bool):
+                        return h
+                except (AbsRaise, Unsupported):
+                    pass
+                finally:
+                    it._in_value_eq -= 1
         return object.__hash__(self)
 
-    __eq__ = object.__eq__
+    def __eq__(self, other):
+        if self is other:
+            return True
+        if isinstance(other, AObj) and self.cls.startswith(_VALUE_EQ_PREFIX) and other.cls.startswith(_VALUE_EQ_PREFIX):
+            it = _CUR_INTERP[0]
+            if it is not None and it._in_value_eq < 8:
+                it._in_value_eq += 1
+                try:
+                    r = it.call(it.getattr(self, "__eq__"), [other])
+                    if isinstance(r, bool):
+                        return r
+                except (AbsRaise, Unsupported):
+                    pass
+                finally:
+                    it._in_value_eq -= 1
+        return False
+
+    def __ne__(self, other):
+        return not self.__eq__(other)
 
 
 class NTObj(AObj):
@@ -608,6 +644,8 @@ class Interp(object):
         self.mod_inited = set()
         self.apply_decorators = set()    # qualified names of repository decorators to interpret
         self._decorated = {}
+        self._in_value_eq = 0
+        _CUR_INTERP[0] = self
         self._callkeys = []              # (function, argument identities) of the interpreted frames
         self._lru = {}                   # results of functions under functools.lru_cache / cache
         self.work = 0                    # cost of linear-time primitives (list membership, copies, sorting ...): see cost()
